@@ -50,6 +50,7 @@ TEMPLATES = {
     # attribute assignment through a name that no longer (or not on this path) holds a namespace: must raise, not write
     "ns_rebound": "{% set ns = namespace() %}{% set ns.x = 1 %}{% set ns = d %}{% set ns.x = 2 %}{{ ns.x }}",
     "ns_untaken": "{% set ns = d %}{% if z == 5 %}{% set ns.x = 1 %}{% endif %}{% set ns.x = 2 %}{{ ns.x }}",
+    "ns_tuple_rebind": "{% set ns = namespace() %}{% set ns, ns.x = d, 1 %}{{ ns.k }}{% set n2 = namespace() %}{% set n2.y, n2 = 2, d %}{{ n2.k }}",
     # `|list` hands out a copy: appending to it changes neither the data, nor a global, nor a cached module's variable
     "list_copy": "{% set a = items|list %}{% set _ = a.append(9) %}{% set b = gl|list %}{% set _ = b.append(9) %}{% import 'lib' as l %}{% set c = l.ll|list %}{% set _ = c.append(9) %}{{ a }}{{ b }}{{ c }}{{ l.ll }}",
     # the parent is chosen by the data of each render; super() must reach the parent chosen by THIS render
@@ -64,7 +65,7 @@ TEMPLATES = {
 }
 POOL = ["imp", "fromctx", "ns", "loopstate", "cycler", "filters", "child", "macro", "setattr", "tojson_indent", "tojson",
         "policies", "impg1", "impg2", "set_attr_of_data", "setblock_attr_of_data", "set_ns_attr",
-        "ns_from_dict", "ae_block", "ae_block@raise", "ns_rebound", "ns_untaken", "list_copy", "dyn@base", "dyn@base2", "genpass"]
+        "ns_from_dict", "ae_block", "ae_block@raise", "ns_rebound", "ns_untaken", "list_copy", "dyn@base", "dyn@base2", "genpass", "ns_tuple_rebind"]
 VARIANTS = {"raise": {"z": 0}, "base": {"lay": "base"}, "base2": {"lay": "base2"}}
 # templates loaded with template-level globals (same names, different values)
 TEMPLATE_GLOBALS = {"impg1": {"tg": "one"}, "impg2": {"tg": "two"}}
